@@ -1001,6 +1001,7 @@ class Run:
         if got != expected:
             key = '%s:%s' % (form, ctxkey)
             if new_param: key = 'unflushed-object-as-query-parameter:' + form
+            if form == 'coll-iter' and getattr(self, '_dead_listed', False): key = 'deleted-object-listed-in-collection:' + ctxkey.split(':')[0]
             self.finding('C10', key, 'a read inside the session does not reflect what the session did',
                          observed={'form': form, 'got': got}, expected=expected)
 
@@ -1046,7 +1047,13 @@ class Run:
                 for f in forms[:rng.choice([2, 3, 4, 8])]:
                     if self.stop: return
                     coll = getattr(obj, name)
-                    if f == 'iter': self_rd('coll-iter', ck, lambda: sorted(self.oid_of(x) for x in coll), exp)
+                    if f == 'iter':
+                        def it_():
+                            objs = list(coll)
+                            self._dead_listed = any(x._status_ in DEL for x in objs)
+                            return sorted(self.oid_of(x) for x in objs)
+                        self._dead_listed = False
+                        self_rd('coll-iter', ck, it_, exp)
                     elif f == 'len': self_rd('coll-len', ck, lambda: len(coll), len(exp))
                     elif f == 'count':
                         # root cause, read off the real SetData before the call: pending additions / removals that a flush has already written
